@@ -1,6 +1,6 @@
 (* C02 - ID verdicts are total, complete and side-effect free. *)
 From Coq Require Import List Bool.
-From Y0 Require Import Base.ListSet Graph.MixedGraph Dsl.Syntax Dsl.Build Alg.Id Proofs.IdP Proofs.IdTotalP.
+From Y0 Require Import Base.ListSet Graph.MixedGraph Dsl.Syntax Dsl.Build Alg.Id Proofs.IdP Proofs.IdTotalP Proofs.KahnP.
 Import ListNotations.
 
 (* Totality: for every well-formed graph without a directed cycle, every non-empty outcome set and every treatment set
@@ -13,6 +13,13 @@ Theorem C02_total_estimand_or_refusal_never_another_failure (topo : mg nat -> op
   wf g -> acyclicP g -> incl X (nodes g) -> incl Y (nodes g) -> Y <> [] -> (forall v, In v X -> ~ In v Y) ->
   match identify_outcomes false topo g X Y with IdCrash _ => False | _ => True end.
 Proof. exact (fun Ht => identify_outcomes_total topo Ht g X Y). Qed.
+
+(* the same with the model's own acyclicity test as the hypothesis (it rejects every directed cycle) *)
+Theorem C02_total_on_graphs_passing_the_acyclicity_test (topo : mg nat -> option (list nat)) (g : mg nat) X Y :
+  (forall h, wf h -> acyclicP h -> exists o, topo h = Some o /\ is_topo h o = true) ->
+  wf g -> is_acyclic g = true -> incl X (nodes g) -> incl Y (nodes g) -> Y <> [] -> (forall v, In v X -> ~ In v Y) ->
+  match identify_outcomes false topo g X Y with IdCrash _ => False | _ => True end.
+Proof. exact (fun Ht Hw Hac => identify_outcomes_total topo Ht g X Y Hw (acyclic_no_cycle g Hw Hac)). Qed.
 
 (* the same for any sub-problem and any amount of fuel above the measure *)
 Theorem C02_total_for_every_subproblem (topo : mg nat -> option (list nat)) fuel I :
@@ -32,6 +39,7 @@ Proof. exact (identify_without_treatments false topo fuel g Y est). Qed.
 Print Assumptions C02_refusal_only_from_the_hedge_test.
 Print Assumptions C02_no_treatments_always_answers.
 Print Assumptions C02_total_estimand_or_refusal_never_another_failure.
+Print Assumptions C02_total_on_graphs_passing_the_acyclicity_test.
 Print Assumptions C02_total_for_every_subproblem.
 
 (* the hypotheses are satisfiable: front door, and the model's own Kahn order serves as the oracle there *)
